@@ -99,6 +99,13 @@ def cases(tier: str, seed: int) -> list[dict]:
                     out.append({"load": load, "sim": sim, "et": et, "dim": dim, "form": ["const", "array", "callable"][(k + r) % 3], "sel": "dup"})
                 if load in ("line", "surf") and (k + r) % 2 == 0:
                     out.append({"load": load, "sim": sim, "et": et, "dim": dim, "form": ["const", "array", "callable"][(k + r) % 3], "sel": "bulk"})
+        # loads on the curved boundary of a hole (elements of order >= 2): a pressure on a closed boundary has no resultant and no moment
+        # about any point, a body force integrates to intensity x measure of the curved domain
+        for j, et in enumerate([e for e in gm.ET_2D + gm.ET_3D if gm.ORDER[e] >= 2]):
+            if tier == "quick" and et in ("HEXA27", "PRISM18", "HEXA20", "PRISM15", "TETRA10") and (j + r) % 2:
+                continue
+            out.append({"load": "curved-hole", "sim": ["elastic", "hyperelastic", "phasefield", "inelastic"][(j + r) % 4], "et": et, "dim": 2 if et in gm.ET_2D else 3,
+                        "form": "const", "sel": "exact", "scale": [1.0, 1e-3, 1e2][(j + r) % 3]})
         for et in gm.ET_1D:
             for theory in ("EB", "Timo"):
                 for bdim in (1, 2, 3):
@@ -188,6 +195,8 @@ def run_case(case: dict, ctx: Ctx) -> None:
     rng = np.random.default_rng([case["seed"], NUM, case["index"]])
     if case["load"] == "beam-line":
         return run_beam(case, ctx, rng)
+    if case["load"] == "curved-hole":
+        return run_curved_hole(case, ctx, rng)
     load, sim, et, dim, form, sel = case["load"], case["sim"], case["et"], case["dim"], case["form"], case["sel"]
     key = f"C09/{load}/{sim}/{et}"
     ctx.default_key = key
@@ -452,6 +461,89 @@ def run_pressure(case, ctx, rng, simu, mesh, poly, h, thickness, kedge, on_edge,
     outside = np.setdiff1d(np.arange(mesh.Nn), nodes)
     ctx.check("stray-nodes-ignored", float(np.abs(fvec[outside]).max() / (abs(p) * area)), 1e-14, key + "/stray")
     ctx.describe(f"pressure/{sim}/{et}", len(nodes) >= 3, load="pressure", sim=sim, et=et, p=p, area=area, sign=float(np.sign(R @ nrm * p)))
+
+
+def _fe_curve_length(mesh, nodes_on_curve):
+    """Length of the finite-element curve made of the 1-D elements whose nodes all belong to `nodes_on_curve`: each element is the
+    polynomial through its nodes (harness-side Lagrange interpolation at the element's reference node positions), its length is
+    integrated with a 24-point Gauss-Legendre rule."""
+    xi, w = np.polynomial.legendre.leggauss(24)
+    total, n = 0.0, 0
+    for g in mesh.Get_list_groupElem(1):
+        con = g.connect
+        on = np.all(np.isin(con, nodes_on_curve), axis=1)
+        if not on.any():
+            continue
+        loc = np.asarray(g.Get_Local_Coords(), float)[:, 0]  # reference positions of the element's nodes
+        for nodes in con[on]:
+            P = mesh.coord[nodes]
+            der = np.zeros((len(xi), 3))
+            for d in range(3):
+                c = np.polyfit(loc, P[:, d], len(loc) - 1)
+                der[:, d] = np.polyval(np.polyder(c), xi)
+            total += float((np.linalg.norm(der, axis=1) * w).sum())
+            n += 1
+    return total, n
+
+
+def run_curved_hole(case, ctx, rng):
+    """Constant line / surface loads on the curved boundary of a circular hole and a body force on the curved domain."""
+    sim, et, dim, scale = case["sim"], case["et"], case["dim"], case["scale"]
+    key = f"C09/curved-hole/{sim}/{et}"
+    ctx.default_key = key
+    thickness = float(rng.uniform(0.4, 2.5)) if dim == 2 else 1.0
+    with ctx.monitored("no-exception", key + "/build/raised"):
+        with quiet():
+            mesh, (Lx, Ly, h, c, R) = gm.mesh_curved(rng, et, dim, scale, layers=1)
+            simu = make_simu(sim, mesh, dim, thickness)
+    X = mesh.coord
+    used = gm.used_nodes(mesh)
+    rad = np.hypot(X[used, 0] - c[0], X[used, 1] - c[1])
+    hole = used[np.abs(rad - R) < 1e-6 * R]
+    ring = hole if dim == 2 else hole[np.abs(X[hole, 2]) < 1e-9 * scale]
+    Lfe, nedges = _fe_curve_length(mesh, ring)
+    ctx.require("hole-found", len(hole) >= 6 and nedges >= 4 and abs(Lfe - 2 * np.pi * R) < 0.02 * 2 * np.pi * R, key + "/harness-hole", n=int(len(hole)), edges=nedges, L=Lfe, circle=2 * np.pi * R)
+    names = ["x", "y", "z"][:dim]
+    pt = _pt(simu)
+    kw = {"problemType": pt} if pt is not None else {}
+    t = thickness if dim == 2 else 1.0
+
+    def neumann():
+        v = simu.Bc_vector_Neumann(pt) if pt is not None else simu.Bc_vector_Neumann()
+        return np.asarray(v, float).reshape(mesh.Nn, -1)[:, :dim]
+
+    # constant traction on the hole boundary: resultant = traction x (length of the curved boundary x thickness | x height)
+    q = rng.uniform(-1, 1, dim)
+    with ctx.monitored("no-exception", key + "/boundary-load/raised"):
+        with quiet():
+            simu.Bc_Init()
+            simu.add_surfLoad(hole, [float(x) for x in q], names, **kw)  # (on a 2-D mesh: a traction on its edges, times the thickness)
+            f = neumann()
+    size = Lfe * (t if dim == 2 else h)
+    # (the library integrates |x'| with the few points of its mass rule: not a polynomial, observed agreement 1e-7 .. 1e-6)
+    ctx.check("force-resultant", float(np.abs(f.sum(0) - q * size).max()) / (np.abs(q).max() * size), 2e-5, key + "/boundary-load/resultant", loaded_size=size, chord_polygon=float(2 * nedges * R * np.sin(np.pi / nedges)) * (t if dim == 2 else h))
+    ctx.require("load-support", float(np.abs(np.delete(f, hole, axis=0)).max()) == 0.0, key + "/boundary-load/support")
+    # a pressure on the closed boundary (nodal normals interpolated by the library - an approximation on curved boundaries; the property
+    # speaks of planar faces): recorded, not judged
+    p0 = float(rng.uniform(0.5, 3.0))
+    try:
+        with quiet():
+            simu.Bc_Init()
+            simu.add_pressureLoad(hole, p0, **kw)
+            fp = neumann()
+        ctx.event("observed:closed-pressure-resultant<1e-9" if float(np.abs(fp.sum(0)).max()) < 1e-9 * p0 * size else "observed:closed-pressure-resultant>=1e-9")
+    except Exception:  # noqa: BLE001
+        ctx.event("observed:pressure-on-curved-boundary-raised")
+    # body force on the curved domain
+    qv = rng.uniform(-1, 1, dim)
+    with ctx.monitored("no-exception", key + "/volume/raised"):
+        with quiet():
+            simu.Bc_Init()
+            simu.add_volumeLoad(mesh.nodes, [float(x) for x in qv], names, **kw)
+            fv = neumann()
+            meas = float(mesh.area if dim == 2 else mesh.volume)
+    ctx.check("force-resultant", float(np.abs(fv.sum(0) - qv * meas * t).max()) / (np.abs(qv).max() * meas * t), 1e-9, key + "/volume/resultant", measure=meas)
+    ctx.describe(f"curved-hole/{sim}/{et}/scale={scale:g}", True, sim=sim, et=et, scale=scale, n_hole=int(len(hole)), R=R, edges=nedges)
 
 
 def run_point(case, ctx, rng, simu, mesh, thickness):
